@@ -19,6 +19,39 @@ type State struct {
 	// binderFacts collects typing facts about terms that mention bound variables while a quantifier
 	// body is being evaluated; the quantifier adds them as hypotheses.
 	binderFacts *[]*Term
+	// memSeen/memTop: for every region, the version last observed and the allocation frontier at
+	// (or after) the time that version was installed: values read from it are below that frontier.
+	memSeen map[string]*Mem
+	memTop  map[string]*Term
+}
+
+// syncTops records the current frontier for every region whose version changed since the last sync.
+func (s *State) syncTops() {
+	if s.memSeen == nil {
+		s.memSeen, s.memTop = map[string]*Mem{}, map[string]*Term{}
+	}
+	for name, m := range s.mem {
+		if s.memSeen[name] != m {
+			s.memSeen[name] = m
+			s.memTop[name] = s.allocTop
+		}
+	}
+}
+
+// topOf returns a frontier below which every reference stored in the current version of the region lies.
+func (h *Heap) topOf(s *State, name string) *Term {
+	if s.memSeen == nil {
+		s.memSeen, s.memTop = map[string]*Mem{}, map[string]*Term{}
+	}
+	m := s.mem[name]
+	if m != nil && m == h.init[name] {
+		return h.C.Const("top0", SInt)
+	}
+	if s.memSeen[name] != m {
+		s.memSeen[name] = m
+		s.memTop[name] = s.allocTop
+	}
+	return s.memTop[name]
 }
 
 func (s *State) Clone() *State {
@@ -41,6 +74,14 @@ func (s *State) Clone() *State {
 	}
 	n.pc = append([]*Term(nil), s.pc...)
 	n.defers = append([]deferred(nil), s.defers...)
+	n.memSeen = make(map[string]*Mem, len(s.memSeen))
+	for k, v := range s.memSeen {
+		n.memSeen[k] = v
+	}
+	n.memTop = make(map[string]*Term, len(s.memTop))
+	for k, v := range s.memTop {
+		n.memTop[k] = v
+	}
 	return n
 }
 
@@ -61,6 +102,8 @@ type Heap struct {
 	C      *Ctx
 	init   map[string]*Mem
 	schema map[string][]regionSchema // leaf regions below a modifies prefix
+	// ImplOf(v, T) is the predicate "the dynamic type of interface value v implements T"
+	ImplOf func(v *Term, t types.Type) *Term
 }
 
 type regionSchema struct {
@@ -107,16 +150,24 @@ func (h *Heap) assumeTyped(s *State, v Value) {
 			}
 			return
 		}
-		if s.typed[sl.Arr] && s.typed[sl.Len] {
+		if s.typed[fact] {
 			return
 		}
-		s.typed[sl.Arr], s.typed[sl.Len] = true, true
+		s.typed[fact] = true
 		s.Assume(fact)
 	case kInt:
 		if isUnsigned(v.T) {
 			h.typeFact(s, v.Term, c.Ge(v.Term, c.Int(0)))
 		}
-	case kString, kIface, kOpaque:
+	case kIface:
+		// maxref(v): the largest reference held inside the boxed value; it existed when v was stored
+		mr := c.App("maxref", SInt, v.Term)
+		fact := c.And(c.Ge(v.Term, c.Int(0)), c.Le(mr, s.allocTop), c.Ge(mr, c.Int(0)))
+		if it, ok := v.T.Underlying().(*types.Interface); ok && it.NumMethods() > 0 && h.ImplOf != nil {
+			fact = c.And(fact, c.Or(c.Eq(v.Term, c.Int(0)), h.ImplOf(v.Term, v.T)))
+		}
+		h.typeFact(s, v.Term, fact)
+	case kString, kOpaque:
 		h.typeFact(s, v.Term, c.Ge(v.Term, c.Int(0)))
 	case kRef:
 		h.typeFact(s, v.Term, c.And(c.Ge(v.Term, c.Int(0)), c.Le(v.Term, s.allocTop)))
@@ -130,10 +181,10 @@ func (h *Heap) typeFact(s *State, t *Term, fact *Term) {
 		}
 		return
 	}
-	if t.IsLit() || s.typed[t] {
+	if t.IsLit() || s.typed[fact] {
 		return
 	}
-	s.typed[t] = true
+	s.typed[fact] = true
 	s.Assume(fact)
 }
 
@@ -166,6 +217,7 @@ func (h *Heap) zeroValue(t types.Type) Value {
 // ---- allocation ---------------------------------------------------------------------------
 
 func (h *Heap) alloc(s *State, hint string) *Term {
+	s.syncTops()
 	r := h.C.Fresh("new_"+hint, SInt)
 	s.Assume(h.C.Gt(r, s.allocTop))
 	s.allocTop = r
@@ -178,11 +230,29 @@ func (h *Heap) alloc(s *State, hint string) *Term {
 func (h *Heap) readLeaves(s *State, prefix string, arity int, t types.Type, ref, idx *Term) Value {
 	ls := leavesOf(t)
 	ts := make([]*Term, len(ls))
+	bound := s.allocTop
 	for i, l := range ls {
 		m := h.region(s, prefix+l.Path, arity, l.Sort)
 		ts[i] = h.C.Read(m, ref, idx)
+		if i == 0 || len(ls) == 1 {
+			// the frontier of the region version applies only to objects that existed then; cells of
+			// objects allocated later (by callees, without a havoc of this region) are bounded by the
+			// current frontier only
+			rt := h.topOf(s, prefix+l.Path)
+			if rt != s.allocTop && !ref.HasBVar() {
+				bound = h.C.Ite(h.C.Le(ref, rt), rt, s.allocTop)
+			}
+		}
 	}
 	v := unflatten(t, ts)
+	if len(ls) == 1 || kindOf(t) == kSlice {
+		// a tighter frontier: the value was stored before the region's current version was installed
+		saved := s.allocTop
+		s.allocTop = bound
+		h.assumeTyped(s, v)
+		s.allocTop = saved
+		return v
+	}
 	h.assumeTyped(s, v)
 	return v
 }
